@@ -14,6 +14,34 @@ pub broadcast axiom fn axiom_utf8_no_nul(t: Seq<char>)
 pub broadcast axiom fn axiom_utf8_empty()
     ensures #[trigger] utf8_bytes(Seq::<char>::empty()) == Seq::<u8>::empty(), utf8_text(Seq::<u8>::empty()) == Seq::<char>::empty(), utf8_valid(Seq::<u8>::empty());
 
+// ---- opaque stream algebra: the decode-correctness proofs only ever see these three functions, so the SMT solver
+// never instantiates vstd's Seq axioms on packet contents (linear number of instantiations per parser) ----
+#[verifier::opaque]
+pub open spec fn cat(a: Seq<u8>, t: Seq<u8>) -> Seq<u8> { a + t }
+#[verifier::opaque]
+pub open spec fn head_of(s: Seq<u8>, n: int) -> Seq<u8> { s.subrange(0, n) }
+#[verifier::opaque]
+pub open spec fn tail_of(s: Seq<u8>, n: int) -> Seq<u8> { s.subrange(n, s.len() as int) }
+pub broadcast proof fn lemma_split_cat(a: Seq<u8>, t: Seq<u8>, n: int)
+    ensures
+        #![trigger head_of(cat(a, t), n)]
+        #![trigger tail_of(cat(a, t), n)]
+        n == a.len() ==> head_of(cat(a, t), n) == a && tail_of(cat(a, t), n) == t,
+{
+    reveal(cat); reveal(head_of); reveal(tail_of);
+    if n == a.len() {
+        assert((a + t).subrange(0, n) =~= a);
+        assert((a + t).subrange(n, (a + t).len() as int) =~= t);
+    }
+}
+pub broadcast proof fn lemma_cat_len(a: Seq<u8>, t: Seq<u8>)
+    ensures #[trigger] cat(a, t).len() == a.len() + t.len()
+{ reveal(cat); }
+pub proof fn lemma_cat_is_add(a: Seq<u8>, t: Seq<u8>)
+    ensures cat(a, t) == a + t
+{ reveal(cat); }
+pub broadcast group group_stream { lemma_split_cat, lemma_cat_len }
+
 /// NUL-terminated string on the wire
 pub open spec fn cstr(t: Seq<char>) -> Seq<u8> { utf8_bytes(t).push(0u8) }
 
@@ -55,6 +83,17 @@ pub broadcast proof fn lemma_empty_concat(x: Seq<u8>)
 pub broadcast proof fn lemma_concat_assoc(a: Seq<u8>, b: Seq<u8>, c: Seq<u8>)
     ensures #![trigger (a + b) + c] (a + b) + c == a + (b + c)
 { assert((a + b) + c =~= a + (b + c)); }
+/// subranges of a concatenation that fall on the seam (one instantiation per subrange-of-concatenation term)
+pub broadcast proof fn lemma_sub_of_concat(a: Seq<u8>, t: Seq<u8>, i: int, j: int)
+    ensures
+        #![trigger (a + t).subrange(i, j)]
+        (i == 0 && j == a.len()) ==> (a + t).subrange(i, j) == a,
+        (i == a.len() && j == (a + t).len()) ==> (a + t).subrange(i, j) == t,
+{
+    if i == 0 && j == a.len() { assert((a + t).subrange(i, j) =~= a); }
+    if i == a.len() && j == (a + t).len() { assert((a + t).subrange(i, j) =~= t); }
+}
+pub broadcast group group_step { lemma_sub_of_concat, lemma_empty_concat }
 pub broadcast group group_text { lemma_empty_concat, lemma_concat_assoc,
     axiom_utf8_roundtrip, axiom_utf8_no_nul, axiom_utf8_empty,
     lemma_first_index_of_concat, lemma_concat_prefix, lemma_concat_suffix, lemma_push_concat, lemma_sub_sub,
